@@ -124,12 +124,14 @@ F runIntegrate(const std::vector<F> &w, const Spline<F, OA> &a, const Spline<F, 
 }
 
 // the analytic side of C17: the same polynomial weight as an operator, w0 + w1 x + ... + w6 x^6
+// left = true: the weight in the left slot of a two-operator form, <W a | b>
 template <typename F, size_t OA, size_t OB>
-F runAnalytic(const std::vector<F> &w, const Spline<F, OA> &a, const Spline<F, OB> &b) {
+F runAnalytic(const std::vector<F> &w, const Spline<F, OA> &a, const Spline<F, OB> &b, bool left = false) {
   using namespace bspline::operators;
   std::vector<F> v = w;
   v.resize(7, static_cast<F>(0));
   const auto W = v[0] * IdentityOperator{} + v[1] * X<1>{} + v[2] * X<2>{} + v[3] * X<3>{} + v[4] * X<4>{} + v[5] * X<5>{} + v[6] * X<6>{};
+  if (left) return bspline::integration::BilinearForm{W, IdentityOperator{}}.evaluate(a, b);
   return bspline::integration::BilinearForm{W}.evaluate(a, b);
 }
 
@@ -168,6 +170,7 @@ void fpInt(const json &in, json &out) {
           const Q S = ratQ(in.at("S"));
           // "equals the analytic bilinear form with f as operator": both sides against the exact weighted integral
           acc.cmp(runAnalytic<F, oa, ob>(w, a, b), ratQ(in.at("E")), S, "bf");
+          acc.cmp(runAnalytic<F, oa, ob>(w, a, b, true), ratQ(in.at("E")), S, "bf (weight on the left)");
           if (exact) {
             acc.cmp(v, ratQ(in.at("E")), S, "int");
           } else {
